@@ -301,6 +301,12 @@ def settle(pid, verdicts, obs_files, tier, extra_samples=None):
 
 def write_evidence(pid, tier, level, coverage, assumptions, wall_s, violations):
     os.makedirs(EVID, exist_ok=True)
+    if not pid.startswith("C"):
+        # checks beyond the listed properties (X..): their evidence is kept out of /verif/evidence
+        os.makedirs(BUILD, exist_ok=True)
+        json.dump({"property_id": pid, "tier": tier, "seed": seed(), "level": level, "coverage": coverage, "assumptions": assumptions,
+                   "wall_s": round(wall_s, 2), "violations": int(violations)}, open(os.path.join(BUILD, "evidence_%s.json" % pid), "w"), indent=1, default=str)
+        return
     ev = {"property_id": pid, "tier": tier, "seed": seed(), "level": level, "coverage": coverage,
           "assumptions": assumptions, "wall_s": round(wall_s, 2), "violations": int(violations)}
     tmp = os.path.join(EVID, pid + ".json.tmp")
